@@ -5,12 +5,12 @@ From PV Require Import Base.Text Model.DHCP Model.DHCPShow Spec.DHCP.
 Open Scope string_scope.
 Open Scope N_scope.
 
-Record tstep := mkT { t_pre : dstate; t_op : op; t_reply : option reply; t_post : dstate }.
+Record tstep := mkT { t_pre : dstate; t_ch : ip -> nat; t_op : op; t_reply : option reply; t_post : dstate }.
 
 Fixpoint trace (c : cfg) (s : dstate) (h : list ((ip -> nat) * op)) : list tstep :=
   match h with
   | [] => []
-  | (ch, o) :: r => let '(s1, rp) := step c ch s o in mkT s o rp s1 :: trace c s1 r
+  | (ch, o) :: r => let '(s1, rp) := step c ch s o in mkT s ch o rp s1 :: trace c s1 r
   end.
 
 Definition op_msg (o : op) : option dmsg :=
@@ -38,7 +38,78 @@ Definition c11_fails (c : cfg) (t : tstep) : list string :=
       else []
   | _, _ => []
   end
-  ++ (if uniqb (tbl (t_post t)) then [] else ["uniq"]).
+  ++ (if uniqb (tbl (t_pre t)) && negb (uniqb (tbl (t_post t))) then ["uniq"] else []).
+
+(* ---------------------------------------------------------------- *)
+(* Recorded finding classes of C11 (known_findings.txt): the code path that produced the reply,
+   with the demands that path is known not to check.  A failing step outside every class, or
+   failing a demand its class does not list, is reported as a new violation. *)
+
+(* the lease as the handler sees it after Session.Parse and findOrCreate *)
+Definition seen (c : cfg) (t : tstep) (m : dmsg) : dstate * lease :=
+  findOrCreate c (parse_effect c (t_pre t) m) (getcid m) (m_chaddr m).
+
+Definition c11_class (c : cfg) (t : tstep) : option (string * list string) :=
+  match t_op t, t_reply t with
+  | ODiscover now m, Some r =>
+      if is_offer r then
+        let '(s1, l) := seen c t m in
+        let l1 := discover_reset now l m in
+        match l_offer l1 with
+        | Some _ =>
+            (* an earlier offer / the current lease is offered again without any check *)
+            Some ("c11-discover-retained-offer-unchecked",
+                  ["acked-elsewhere"; "tracked-other-mac"; "network"; "broadcast"; "outside"])
+        | None =>
+            match phase1 (t_ch t) (put s1 l1) l1 (m_req m) with
+            | Some _ =>
+                (* allocIPOffer takes the requested address: only Allocated leases and FindIP are consulted *)
+                Some ("c11-discover-requested-ip-unchecked", ["network"; "broadcast"; "outside"])
+            | None => None
+            end
+        end
+      else None
+  | ORequest now m, Some r =>
+      if is_ack r then
+        let '(_, l) := seen c t m in
+        match l_state l with
+        | SDiscover =>
+            (* SELECT confirms the pending offer; other leases and the session are not consulted *)
+            Some ("c11-select-pending-offer-unchecked",
+                  ["acked-elsewhere"; "uniq"; "tracked-other-mac"; "network"; "broadcast"; "outside"])
+        | SFree =>
+            (* SELECT with our server id on a lease in state Free (unknown / expired / re-created) is ACKed *)
+            Some ("c11-select-free-lease-acked",
+                  ["acked-elsewhere"; "uniq"; "tracked-other-mac"; "network"; "broadcast"; "outside"])
+        | SAllocated =>
+            (* renew / rebind / reboot / repeated select of the current lease *)
+            Some ("c11-ack-current-lease-unchecked",
+                  ["acked-elsewhere"; "uniq"; "tracked-other-mac"; "network"; "broadcast"; "outside"])
+        end
+      else None
+  | _, _ => None
+  end.
+
+Definition mem_str (x : string) (l : list string) : bool := existsb (String.eqb x) l.
+
+(* key of a failing step: Some key when every failed demand is one its class lists *)
+Definition step_key (cls : tstep -> option (string * list string)) (fails : list string) (t : tstep) : option string :=
+  match cls t with
+  | Some (k, allowed) => if forallb (fun f => mem_str f allowed) fails then Some k else None
+  | None => None
+  end.
+
+(* key of a history: the class of its first failing step if every failing step is explained, else "-" *)
+Fixpoint hist_key (cls : tstep -> option (string * list string)) (fs : list (tstep * list string)) (first : option string) : string :=
+  match fs with
+  | [] => match first with Some k => k | None => "-" end
+  | (t, []) :: r => hist_key cls r first
+  | (t, f) :: r =>
+      match step_key cls f t with
+      | Some k => hist_key cls r (match first with Some k0 => Some k0 | None => Some k end)
+      | None => "-"
+      end
+  end.
 
 Definition c12_fails (c : cfg) (t : tstep) : list string :=
   match op_msg (t_op t) with
@@ -57,7 +128,10 @@ Definition c12_fails (c : cfg) (t : tstep) : list string :=
 Fixpoint number_fails (i : nat) (fs : list (list string)) : list string :=
   match fs with
   | [] => []
-  | f :: r => map (fun x => dec_of_nat i ++ ":" ++ x) f ++ number_fails (S i) r
+  | f :: r => List.app (map (fun x => dec_of_nat i ++ ":" ++ x) f) (number_fails (S i) r)
   end.
 
 Definition show_fails (fs : list (list string)) : string := join " " (number_fails 0 fs).
+
+Definition all_nil (fs : list (list string)) : bool :=
+  forallb (fun f => match f with [] => true | _ => false end) fs.
